@@ -1,7 +1,7 @@
 //! The interpreter: executes one `(Config, trace)` against the real crate, next to the reference
 //! model, and evaluates every oracle after every step.
 
-use crate::children::{invoke_ref, invoke_val, WorkCapExceeded};
+use crate::children::{invoke_ref, invoke_val, ChildPanic, WorkCapExceeded};
 use crate::flags::{self, F};
 use crate::ops::*;
 use crate::probes::{self, AbortRun};
@@ -69,6 +69,9 @@ struct Runner<'a> {
     allocs_ctor: u64,
     res: RunResult,
     dead: bool,
+    /// a scripted child panicked in its poll and the unwind went through the subject: from here on
+    /// only the memory-safety oracles stay on (what a collection does after that is unspecified)
+    relaxed: bool,
     err_toks_seen: u64,
     vacant_pops_seen: u64,
 }
@@ -211,16 +214,35 @@ impl<'a> Runner<'a> {
         });
         let waker = flags::task_waker(id);
         let mut subj = self.subj.take().unwrap();
+        let allocs_before = F.with(|f| f.allocs_in_crate.get());
         let r = catch_unwind(AssertUnwindSafe(|| {
             let mut cx = Context::from_waker(&waker);
             flags::in_crate(|| subj.poll(&mut cx))
         }));
         F.with(|f| f.in_subject_poll.set(false));
+        if r.is_err() {
+            // the panic machinery allocates its payload; that is not the crate's doing
+            F.with(|f| f.allocs_in_crate.set(allocs_before));
+        }
         self.res.polls += 1;
         if held_before > 0 {
             self.res.polls_with_held += 1;
         }
         match r {
+            Err(p) if p.downcast_ref::<ChildPanic>().is_some() => {
+                // the caller caught a child's panic and keeps the combinator: legal, safe code
+                F.with(|f| {
+                    f.in_crate.set(0);
+                    f.quiet_panic.set(false);
+                });
+                self.relaxed = true;
+                self.subj = Some(subj);
+                drop(waker);
+                with(|w| w.log(0x38, 0));
+                self.collect_probe_errors();
+                self.last = Last::None;
+                Last::None
+            }
             Err(p) => {
                 std::mem::forget(subj);
                 std::mem::forget(waker);
@@ -535,7 +557,7 @@ impl<'a> Runner<'a> {
                         let first = !self.done;
                         self.done = true;
                         with(|w| w.log(0x34, v.len() as u64));
-                        if first {
+                        if first && !self.relaxed {
                             let unfinished = with(|w| inputs.iter().filter(|&&c| w.children[c as usize].completed_at.is_none()).count());
                             if unfinished > 0 {
                                 self.violate(
@@ -559,6 +581,14 @@ impl<'a> Runner<'a> {
                         for (i, t) in v.into_iter().enumerate() {
                             let c2 = if first { "first Ready" } else { "poll after Ready" };
                             if let Some((child, _, k)) = self.take_tok(t, "C07", &format!("{} ({}), element {}", ctx, c2, i)) {
+                                let panicked = with(|w| w.children[child as usize].panicked);
+                                if panicked {
+                                    self.violate(
+                                        "C07",
+                                        "output-of-panicked-input",
+                                        format!("{}: handed out a value for input {} which panicked and produced none", ctx, child),
+                                    );
+                                }
                                 if first && (i >= inputs.len() || inputs[i] != child || k != K_OK) {
                                     self.violate(
                                         "C04",
@@ -589,7 +619,7 @@ impl<'a> Runner<'a> {
                             let others = with(|w| {
                                 inputs
                                     .iter()
-                                    .filter(|&&c| c != child && w.children[c as usize].beh.fail && w.children[c as usize].completed_at.is_some() && !w.children[c as usize].yielded)
+                                    .filter(|&&c| c != child && w.children[c as usize].beh.fail && !w.children[c as usize].panicked && w.children[c as usize].completed_at.is_some() && !w.children[c as usize].yielded)
                                     .count()
                             });
                             if !ok || others > 0 {
@@ -627,7 +657,7 @@ impl<'a> Runner<'a> {
                 .completed_ids_call
                 .iter()
                 .copied()
-                .filter(|&c| w.children[c as usize].drops == 0)
+                .filter(|&c| w.children[c as usize].drops == 0 && !w.children[c as usize].nodrop && !w.children[c as usize].panicked)
                 .collect();
             let mut lost = vec![];
             let mut starved = vec![];
@@ -662,7 +692,7 @@ impl<'a> Runner<'a> {
                 format!("{}: child {} finished in poll #{} but was not dropped before that poll returned", ctx, c, poll_no),
             );
         }
-        if !lost.is_empty() {
+        if !lost.is_empty() && !self.relaxed {
             self.violate(
                 "C01",
                 "pending-with-unpolled-child",
@@ -672,7 +702,7 @@ impl<'a> Runner<'a> {
                 ),
             );
         }
-        if let Some(&(c, waited)) = starved.first() {
+        if let (Some(&(c, waited)), false) = (starved.first(), self.relaxed) {
             self.violate(
                 "C13",
                 "starved",
@@ -901,7 +931,7 @@ impl<'a> Runner<'a> {
             );
         }
         // C01 between polls: a wake after a Pending poll must reach the task waker of that poll
-        if self.last == Last::Pending && self.subj.is_some() && !F.with(|f| f.task_woken.get()) {
+        if self.last == Last::Pending && self.subj.is_some() && !self.relaxed && !F.with(|f| f.task_woken.get()) {
             let lost: Vec<u32> = with(|w| {
                 w.live_children()
                     .into_iter()
@@ -1396,10 +1426,10 @@ impl<'a> Runner<'a> {
         // C06: everything the subject still owned must be gone now
         let (kids, outs): (Vec<u32>, Vec<u32>) = with(|w| {
             let k = (0..w.children.len() as u32)
-                .filter(|&i| w.children[i as usize].drops == 0)
+                .filter(|&i| w.children[i as usize].drops == 0 && !w.children[i as usize].nodrop)
                 .collect();
             let o = (0..w.toks.len() as u32)
-                .filter(|&i| w.toks[i as usize].drops == 0)
+                .filter(|&i| w.toks[i as usize].drops == 0 && !w.toks[i as usize].nodrop)
                 .collect();
             (k, o)
         });
@@ -1465,10 +1495,14 @@ impl<'a> Runner<'a> {
         });
         let waker = flags::task_waker(id);
         let mut subj = self.subj.take().unwrap();
+        let allocs_before = F.with(|f| f.allocs_in_crate.get());
         let r = catch_unwind(AssertUnwindSafe(|| {
             let mut cx = Context::from_waker(&waker);
             flags::in_crate(|| subj.poll(&mut cx))
         }));
+        if r.is_err() {
+            F.with(|f| f.allocs_in_crate.set(allocs_before));
+        }
         F.with(|f| {
             f.in_subject_poll.set(false);
             f.quiet_panic.set(false);
@@ -1483,6 +1517,9 @@ impl<'a> Runner<'a> {
                     return;
                 }
                 // a panic is an accepted answer to polling a finished future
+                if p.downcast_ref::<ChildPanic>().is_some() {
+                    self.relaxed = true;
+                }
                 F.with(|f| f.in_crate.set(0));
                 with(|w| w.log(0x37, 0));
                 self.subj = Some(subj);
@@ -1529,7 +1566,7 @@ impl<'a> Runner<'a> {
 
     /// C14 phase oracle.
     fn freeze(&mut self) {
-        if self.dead || self.subj.is_none() || (self.done && self.class == Class::Join) {
+        if self.dead || self.relaxed || self.subj.is_none() || (self.done && self.class == Class::Join) {
             return;
         }
         if self.done && self.kind() == SubjectKind::FEC {
@@ -1597,6 +1634,15 @@ impl<'a> Runner<'a> {
         if self.dead || self.subj.is_none() {
             return;
         }
+        if self.relaxed {
+            // no liveness claims after a caught child panic; still poll a few times
+            for _ in 0..4 {
+                if self.poll_once(false) == Last::None || self.dead {
+                    break;
+                }
+            }
+            return;
+        }
         if self.done && (self.class == Class::Join || self.kind() == SubjectKind::FEC) {
             // a future that has resolved owes nothing to anybody
             return;
@@ -1653,7 +1699,7 @@ impl<'a> Runner<'a> {
                 "no-fixpoint",
                 format!("{}: with all faults stopped the task kept being woken for {} Pending polls ({} held)", ctx, pendings, h),
             );
-        } else if fix && self.subj.is_some() && !(self.done && (self.class == Class::Join || self.kind() == SubjectKind::FEC)) {
+        } else if fix && self.subj.is_some() && !self.relaxed && !(self.done && (self.class == Class::Join || self.kind() == SubjectKind::FEC)) {
             let (lost, unyielded): (Vec<u32>, Vec<u32>) = with(|w| {
                 let l = w
                     .live_children()
@@ -1842,10 +1888,10 @@ impl<'a> Runner<'a> {
             let ctx = kind.name();
             let (kids, outs, garbage, missed_err): (Vec<u32>, Vec<u32>, u64, u64) = with(|w| {
                 let k = (0..w.children.len() as u32)
-                    .filter(|&i| w.children[i as usize].drops != 1)
+                    .filter(|&i| w.children[i as usize].drops != 1 && !w.children[i as usize].nodrop)
                     .collect();
                 let o = (0..w.toks.len() as u32)
-                    .filter(|&i| w.toks[i as usize].drops != 1)
+                    .filter(|&i| w.toks[i as usize].drops != 1 && !w.toks[i as usize].nodrop)
                     .collect();
                 let me = w
                     .toks
@@ -1972,6 +2018,8 @@ fn run_inner(cfg: &Config, trace: &[Op]) -> RunResult {
     });
     let class = cfg.subject.class();
     with(|w| {
+        w.nd_children = cfg.shape & 1 != 0 && matches!(class, Class::Collection | Class::Join);
+        w.raw_outputs = cfg.shape & 2 != 0 && matches!(class, Class::Collection | Class::Join);
         w.limit = cfg.cap;
         w.up.script = cfg.upstream.clone();
         w.up.released = cfg.up_released.min(cfg.upstream.len());
@@ -2009,6 +2057,7 @@ fn run_inner(cfg: &Config, trace: &[Op]) -> RunResult {
         allocs_ctor: 0,
         res: RunResult::default(),
         dead: false,
+        relaxed: false,
         err_toks_seen: 0,
         vacant_pops_seen: 0,
     };
